@@ -149,6 +149,9 @@ func buildWeb(r *rand.Rand, s *sim.Sim, nURL int, budget int, tag string, profil
 			case x < 12:
 				extra++
 				q := fmt.Sprintf("?q=%d", extra)
+				if r.Intn(3) == 0 {
+					q += "&pad=" + strings.Repeat("p", 4000+r.Intn(300)) + "&tail=1" // a Location line longer than any read buffer
+				}
 				w.add("https://"+self.Host+self.Path+q, profile).Spec = gen.Response(r, gen.HTTPOpts{Profile: profile, Marker: fmt.Sprintf("q%d", extra), Bias: 1})
 				return q, "ok"
 			case x < 14:
